@@ -1,4 +1,5 @@
 # C13: inventory indexes are the exact inverse of per-node lists.
+import re
 import invgen as G
 from common import *  # noqa
 
@@ -73,6 +74,21 @@ def run(tier, rng, C):
         cases.append({'id': cid, 'line': G.inv_line(cid, inv, 'all'), 'show': G.show_inv(inv, 'all'), 'nontrivial': True})
         meta[cid] = (inv, failing)
 
+    # big inventories with one or two failing nodes among many healthy ones (the workers run in parallel: the error
+    # must name a node that fails, not one that merely was not finished)
+    for i in range(8 if tier == 'quick' else 120):
+        inv = G.Inv()
+        inv.classes[('c.yml',)] = G.doc([], ['app'], ('m', [(S('v'), S('${_reclass_:name:short}'))]))
+        nn = rng.randint(120, 220)
+        failing = set(rng.sample(['node%03d' % j for j in range(nn)], rng.randint(1, 2)))
+        for j in range(nn):
+            nm = 'node%03d' % j
+            inv.nodes[(nm + '.yml',)] = G.doc(['c'] + (['no.such.class'] if nm in failing else []), [], ('m', [(S('j'), I(j))]))
+        inv.universe.update(['c', 'no.such.class'])
+        cid = C.case_id('b', i)
+        cases.append({'id': cid, 'line': G.inv_line(cid, inv, 'all'), 'show': 'inventory of %d nodes, failing: %s' % (nn, sorted(failing)), 'nontrivial': True})
+        meta[cid] = (inv, failing)
+
     def oracle(cases, mobs, iobs):
         fails = []
         for c in cases:
@@ -84,7 +100,7 @@ def run(tier, rng, C):
                 msg = unhx(o.split(' ')[1]) if k == 'err' else ''
                 if k != 'err':
                     bad = 'nodes %s fail but the inventory rendered' % sorted(failing)
-                elif not any(f in msg for f in failing):
+                elif not any(re.search(r'(?<![A-Za-z0-9_.~-])' + re.escape(f) + r'(?![A-Za-z0-9_~-])', msg) for f in failing):
                     bad = 'inventory error names no failing node (%s): %r' % (sorted(failing), msg[:200])
             elif k != 'ok':
                 bad = 'no node fails but the inventory does: ' + C.describe(o)[:300]
